@@ -152,4 +152,19 @@ PROPS = {
                       "fixed). Random-sampling and interval collectors depend on math/rand and the wall clock and are outside the property. Decoding through FTDC is C01.",
         "assumptions": ["time stamps at millisecond precision"],
     },
+    "C13": {
+        "streams": ["hdr-stat"],
+        "rule": "hdr-stat: random multisets (uniform, log-skewed, clustered at power-of-two boundaries, heavy duplicates, rejected values; n <= 60, thorough: up to 3000) on "
+                "configurations up to 2^21; 17 quantiles per multiset (fixed grid incl. 0.001, 100, >100 plus random), ranks computed by the library's own float expression; "
+                "every multiset split at a random point into merge operands (same and different configurations, both merge orders); rotation schedules of 1-5 windows x 1-12 "
+                "steps; Export/Import, BSON and JSON round trips. Oracle: exact sorted list. Distinct = distinct (configuration, counts array).",
+        "level_text": "Theorems (Props/C13.lean): Import(Export(h)) = h for every configuration and record sequence; counts never negative; total = sum of counts; a merge step "
+                      "conserves counts (recorded + dropped). The order-statistic, merge-union and window clauses are stated (quantile_is_order_statistic) and decided on every run "
+                      "by the exact oracle and by model = implementation, not yet by a theorem.",
+        "level_note": "PARTIAL: quantile = order statistic, monotonicity, Min/Max/Mean bounds, merge = union, window = union of last n windows are checked against an exact oracle on "
+                      "every generated multiset (hdr-stat) and the executable Lean model agrees with the implementation on all of them; the Lean proofs of these clauses (which need the "
+                      "monotonicity of the counts index and the iterator = index enumeration lemma) are not done. Rank from q uses the same IEEE expression on both sides; Mean's "
+                      "final division is trusted.",
+        "assumptions": ["as C12", "float rank expression int64(q/100*n + 0.5) evaluated identically by harness and library"],
+    },
 }
